@@ -789,3 +789,10 @@ Lemma class_emit_call_witness :
   /\ entry_def GClass (mkOpts true true None) [] (L "XConfig") C02DocLink.w_link_ok = Err KeyError
   /\ entry_guard GClass (mkOpts true true None) [] (L "XConfig") ex_ir2 = true.
 Proof. vm_compute. repeat split; reflexivity. Qed.
+
+(* emit.argparse_function at its default word_wrap=True builds the tree of word_wrap=False inside guard_C04_ast when
+   no help text is re-flowed: C04_partial (stated for word_wrap off) covers the default *)
+Lemma argparse_word_wrap_default : forall pt i edd fn ft wd ds,
+  guard_C04_ast i = true -> argparse_help_nowrap i = true ->
+  emit_argparse pt i edd fn ft wd true ds = emit_argparse pt i edd fn ft wd false ds.
+Proof. intros pt i edd fn ft wd ds Hg Hw. apply emit_argparse_ww. apply argparse_guard_ww; assumption. Qed.
